@@ -3,8 +3,12 @@ stdin: JSON {source, compress, labels, constants}; stdout: JSON outcome."""
 import json
 import sys
 
+import os
+
 req = json.load(sys.stdin)
 from bronzebeard import asm
+
+# (the working directory of the call is the directory this interpreter was STARTED in: see fresh() in checks/c16.py)
 
 labels = req['labels']
 consts = req['constants']
